@@ -194,6 +194,17 @@ def apalache(module_path, constants, init, inv, length, wd, name, timeout=900, n
     raise Inconclusive("apalache failed on %s: %s" % (mod, p.stdout[-600:]))
 
 
+def tlaps(module_path, wd, timeout=900):
+    """Check a TLAPS proof (tlapm) in a scratch copy; returns (all_proved, number of obligations, output tail)."""
+    rundir = os.path.join(wd, "tlaps_" + os.path.basename(module_path)[:-4])
+    os.makedirs(rundir, exist_ok=True)
+    shutil.copy(module_path, rundir)
+    p = subprocess.run(["timeout", str(timeout), "tlapm", "--threads", str(min(NCPU, 8)), "--cleanfp", os.path.basename(module_path)], cwd=rundir,
+                       stdout=subprocess.PIPE, stderr=subprocess.STDOUT, text=True)
+    m = re.search(r"All (\d+) obligations? proved", p.stdout)
+    return bool(m) and p.returncode == 0, int(m.group(1)) if m else 0, p.stdout[-600:]
+
+
 def require_ok(r, what):
     if not r.ok:
         raise Inconclusive("%s: shipped model configuration did not pass TLC: violated=%s error=%s" %
